@@ -14,7 +14,7 @@ from typing import Any, Dict, List, Tuple
 
 from .. import core
 from ..core import Check, exc_family, loc_to_parts, show, untext
-from ..pathcommon import DocTable, alt_descendant_order_ok, lockey, random_cases, replay_random, run_universes, sel_features, walk
+from ..pathcommon import _drive, DocTable, alt_descendant_order_ok, lockey, random_cases, replay_random, run_universes, sel_features, walk
 
 _table: Any = None
 
@@ -40,7 +40,8 @@ def replay(rec: Dict[str, Any]) -> List[Tuple[str, Dict[str, Any], str]]:
                 if d > 0:
                     # an iterator over the previous document that is abandoned after one match (match(), limit(), a loop that
                     # breaks) must not leave anything behind in the compiled query
-                    next(iter(path.finditer(tbl.fresh(d - 1))), None)
+                    for _ in range(30 if ".." in text else 1):      # (descendant segments keep work in progress: many times)
+                        next(iter(path.finditer(tbl.fresh(d - 1))), None)
                 ms = list(path.finditer(doc))
                 obs_parts = [m.parts for m in ms]
                 exp_parts = [loc_to_parts(l) for l in exp_locs]
@@ -60,6 +61,8 @@ def replay(rec: Dict[str, Any]) -> List[Tuple[str, Dict[str, Any], str]]:
                     vals2 = jsonpath.findall(text, doc)
                     if len(vals) != len(ms) or any(a is not m.obj for a, m in zip(vals, ms)) or len(vals2) != len(ms) or any(a is not m.obj for a, m in zip(vals2, ms)):
                         disc = "findall-differs-from-finditer"
+                    elif not (len(avals := _drive(path.findall_async(doc))) == len(ms) and all(a is m.obj for a, m in zip(avals, ms))):
+                        disc = "async-twin-selects-other-nodes"
                     elif d == 10 or d == 7:
                         # one environment object, the same text before and after its options are changed: what the text means is what
                         # the options say at the time of the call
